@@ -26,6 +26,11 @@ CHECKS["C07"] = dict(level="exploration", design="5/C07",
    text="4.8 million renderings in the quick tier: all 40 826 expression trees of depth <= 3 over 14 operators and two leaves, postfix/prefix forms in every operand position, all `a op= e` for e of depth <= 2, all else-if chains to length 3, every statement tree of five slices, and for a base set every rendering with one gap changed to each of 13 alternative separators (11 white-space code points, a comment, nothing), each optional `;`/`,` dropped, each sub-expression parenthesised. The parser must return exactly the generated tree.",
    note="trusted: the printer's precedence table and the maximal-munch rule `may_touch` (written from the README/property, not from the parser); U13 (extent of prefix operators) is avoided by always parenthesising non-atomic prefix operands")
 
+CHECKS["C08"] = dict(level="exploration", design="5/C08",
+   technique="bounded-exhaustive enumeration of token sequences x separator choices, of words over a class-complete alphabet against a reference maximal-munch lexer, and of string contents / raw literal bodies against a reference escape decoder, all on the real lexer and parser",
+   text="2.0 million texts in the quick tier: every token string of length <= 3 over a 52-entry vocabulary (keywords, operators, identifiers embedding keywords, numbers, strings) under every per-gap separator choice {nothing where maximal munch allows, space, newline, comment}; every word of <= 3 characters over {a,é,_,1,0,.}; every string content of <= 4 characters over 8 characters through the documented escapes; every raw literal body of <= 4 characters over {a,quote,backslash,n} followed by more input; illegal characters, unterminated strings and lone & | in every statement context must be rejected; token spans must account for every byte.",
+   note="trusted: the token-dump hook (verif::tokens: Debug rendering and end offset of every token), printer::may_touch, and the reference lexer/decoder in props/c08.rs; no token kind name is hard-coded (kinds are learnt from single-token inputs)")
+
 NOT_YET = {}
 props = [json.loads(l) for l in open("/verif/properties.jsonl")]
 checks = []
